@@ -4,15 +4,17 @@
  * descriptor is open, the user descriptor was closed exactly once iff registered with auto-close (and not before the
  * source was deregistered / its module stopped), no close() of a descriptor that is not open at any point.
  * Per job (shape / call-order changing): KIND (1 fd, 2 timer, 3 signal, 4 path, 5 pid, 6 task, 7 threshold), DUP (fd:
- * library works on a duplicate), ONESHOT, FIRE (the source fires once and is delivered before the route), LOOP (loop
+ * library works on a duplicate), ONESHOT, AC, FIRE (the source fires once and is delivered before the route), LOOP (loop
  * started with m_ctx_dispatch before the source is registered), ROUTE:
  *   0 m_mod_stop(A) from outside          1 poison pill sent by B, read by the loop
  *   2 m_mod_deregister(&A) from outside   3 A deregisters itself in the handler of the source's event
  *   4 m_mod_src_deregister_*() then stop  5 pause, resume, stop
  *   6 pause, stop while PAUSED            7 A stops itself in the handler of the source's event
  *   8 pause, m_mod_src_deregister_*() while PAUSED, resume, stop
- * Symbolic: the auto-close bit (passed for every kind: it must only matter for fd), the source's key (timer period and
- * clock, signal number, pid, task id, threshold), errno left by callbacks.
+ * AC (auto-close bit; also passed for the other kinds, where it must not matter).
+ * Symbolic: errno left by callbacks; SYMKEY bit 0: timer clock id, bit 2: task id (only where no registry comparison
+ * reads them).  A symbolic bit in the flag word, a symbolic timer period, signal number or pid give no verdict (measured:
+ * > 150 s against 10 s), so flags are per-job constants.
  * Known finding C20_dup_autoclose (excluded under -DVF_KF_C20_dup_autoclose): with DUP|AUTOCLOSE the library closes
  * its duplicate only; what happens to the user's descriptor is then not asserted. */
 #include "vf.h"
@@ -44,8 +46,8 @@
 #ifndef AC
 #define AC 0
 #endif
-#ifndef SYMABS
-#define SYMABS 0
+#ifndef SYMKEY
+#define SYMKEY 5
 #endif
 #define IN_HANDLER (ROUTE == 3 || ROUTE == 7)
 
@@ -129,22 +131,23 @@ int vf_main(void) {
 #endif
     VF_CHECK(vf_lib_open() == 1 + 2 * (ROUTE == 1 ? 2 : 1), "harness sanity: poll handle and one message pipe per started module");
 
-#if AC < 0
-    _Bool ac = nondet_bool();
-#else
-    _Bool ac = AC;
-#endif
+    const _Bool ac = AC;
     vf_set_errno = true; vf_errno_after_cb = nondet_int();
     m_src_flags fl = (ac ? M_SRC_FD_AUTOCLOSE : 0) | (DUP ? M_SRC_DUP : 0) | (ONESHOT ? M_SRC_ONESHOT : 0);
-    k_tmr.clock_id = nondet_bool() ? CLOCK_MONOTONIC : CLOCK_REALTIME; k_tmr.ns = nondet_u64(); VF_ASSUME(k_tmr.ns > 0);
-#if SYMABS
-    if (nondet_bool()) fl |= M_SRC_TMR_ABSOLUTE;
+#if SYMKEY & 1
+    k_tmr.clock_id = nondet_bool() ? CLOCK_MONOTONIC : CLOCK_REALTIME;
+#else
+    k_tmr.clock_id = CLOCK_MONOTONIC;
 #endif
-    k_sgn.signo = nondet_uint(); VF_ASSUME(k_sgn.signo > 0 && k_sgn.signo < 65);
+    k_tmr.ns = 5000000;
+#if SYMKEY & 4
+    k_task.tid = nondet_int();
+#else
+    k_task.tid = 3;
+#endif
+    k_sgn.signo = 10; k_pid.pid = 77; k_pid.events = 0; k_thr.inactive_ms = 1000; k_thr.activity_freq = 0;
     k_path.path = "/p"; k_path.events = IN_MODIFY;
-    k_pid.pid = nondet_int(); VF_ASSUME(k_pid.pid > 0); k_pid.events = 0;
-    k_task.tid = nondet_int(); k_task.fn = my_task;
-    k_thr.inactive_ms = nondet_u64(); VF_ASSUME(k_thr.inactive_ms > 0); k_thr.activity_freq = 0;
+    k_task.fn = my_task;
     if (KIND == 1) {
         /* what the property says about the user's descriptor: closed by the library iff registered with auto-close */
         ufd = c20_user_fd(ac);
